@@ -403,6 +403,7 @@ class Session:
         prev = self.scale_trial
         self.scale_trial = [x.detach().abs().clone() if prev is None else self.torch.maximum(prev[i], x.detach().abs())
                             for i, x in enumerate(exp_)]
+        self.exp_point = [x.detach().clone() for x in exp_]
         return self.punits(exp_)
 
     def on_strategy(self, pg, last, loss, J, D, R):
@@ -415,8 +416,11 @@ class Session:
             e["p"] = self.pint()
         else:
             e["ed"] = self.expected_trial_units()
-            e["lerr"] = self.loss_err(loss)
-            self.maxunits["ed"] = max(self.maxunits["ed"], e["ed"])
+            # (an implementation may already have put a rejected trial back when it consults the strategy: the distance to
+            #  the base point is logged too, and the trial loss is compared with the loss AT the trial point base (+) D)
+            e["eb"] = self.punits(self.snap_base, self.scale_trial)
+            e["lerr"] = min(self.loss_err(loss), rel_units(float(loss), self.lref(self.exp_point)))
+            self.maxunits["ed"] = max(self.maxunits["ed"], min(e["ed"], e["eb"]))
             self.maxunits["lerr"] = max(self.maxunits["lerr"], e["lerr"])
             # the documented ratio, recomputed from what the strategy was given (logged as data)
             num = float(last) - float(loss)
